@@ -23,7 +23,7 @@ theorem connect_login_refused (env : Env) (now : Time) (rnd : Rnd) (up : Bool) (
     · exact ⟨rfl, rfl, rfl⟩
     · split
       · exact ⟨rfl, rfl, rfl⟩
-      · simp only [hk, hl]
+      · simp only [ServerStream.loginStep, hk, hl]
         exact ⟨trivial, trivial, rfl⟩
 
 /-- **admission**: a new peer whose CONNECT passes the pre-checks and whose login request is accepted is registered:
@@ -40,7 +40,7 @@ theorem connect_admits (env : Env) (now : Time) (rnd : Rnd) (up : Bool) (s : Ser
   unfold ServerStream.processConnect
   simp only []
   rw [if_neg (by simpa using h1), if_neg h2, if_neg h3]
-  simp only [hnew, hk, hl, Option.isNone_none, if_true]
+  simp only [ServerStream.loginStep, hnew, hk, hl, Option.isNone_none, if_true]
   refine ⟨⟨_, clientLookup_set_same _ _ _, rfl, rfl, rfl, rfl⟩, ?_⟩
   by_cases hup : (!up) = true
   · simp [hup]
@@ -63,7 +63,7 @@ theorem connect_replay_keeps_identity (env : Env) (now : Time) (rnd : Rnd) (up :
     · rfl
     · split
       · rfl
-      · simp only [hex, Option.isNone_some, Bool.false_eq_true, if_false]
+      · simp only [ServerStream.loginStep, hex, Option.isNone_some, Bool.false_eq_true, if_false]
         cases skey with
         | none => rfl
         | some key =>
